@@ -8,6 +8,8 @@ package main
 import (
 	"encoding/json"
 	"fmt"
+	"io"
+	"log"
 
 	"verif/harness/internal/hcommon"
 	"verif/harness/internal/rng"
@@ -200,4 +202,8 @@ func generateIdle(r *rng.R, thorough bool, index int) json.RawMessage {
 	return data
 }
 
-func main() { hcommon.Main(area{}) }
+func main() {
+	// the creators log failed best-effort removals; not an observable here
+	log.SetOutput(io.Discard)
+	hcommon.Main(area{})
+}
